@@ -19,8 +19,10 @@ A history does NOT end at a failing operation (finding C10-use-after-failed-push
                of that batch, and no build succeeds after an operation failed inside the builder;
           C03  every array any build returns is a well-formed array of its field (`Spec.WF`: structurally valid AND
                `typeOf` = the field's data type) with exactly the rows of its batch, one array per field — decided on the
-               arrays alone, also after failed operations; not decided (left `pass`) for schemas holding a
-               `FixedSizeBinary(0)` (known finding C03-fixed-size-binary-0, decided by the build suite);
+               arrays alone, also after failed operations; `pass` only when that judgement ran on at least one build
+               that returned arrays.  `na` (nothing decided) for schemas holding a `FixedSizeBinary(0)` (known finding
+               C03-fixed-size-binary-0, decided by the build suite; tag `c03-na:fsb0`) and for histories in which no
+               build returned arrays (tag `c03-na:no-build`);
           C16  no panic, also after a failed operation;
           C18  (API coverage) the public accessors of every error agree with its Display text (`accessorsDisagree`).
 API coverage: `ctor_used = new` means the builder came from `ArrayBuilder::new(SerdeArrowSchema)` (same model: the
@@ -127,6 +129,7 @@ def handle (j : Json) : Except String Verdict := do
     let mut agree := true
     let mut c10 := "pass"
     let mut c03 := "pass"
+    let mut c03Judged := false          -- the C03 judgement ran on at least one build that returned arrays
     let mut c16 := "pass"
     let mut c18 := "pass"
     let mut sig := ""
@@ -242,6 +245,7 @@ def handle (j : Json) : Except String Verdict := do
           -- arrays of the declared fields, one per field, each with exactly the rows of its batch — also from a reused
           -- builder, also after a failed operation
           if !fsb0 then
+            c03Judged := true
             let wfAll := iarrs.length == fields.length &&
               (fields.zip iarrs).all (fun (f, a) => SaModel.Spec.WF f a && (decodeAll a).length == batch.length)
             if !wfAll then
@@ -309,6 +313,10 @@ def handle (j : Json) : Except String Verdict := do
     let tags := tags0 ++ [s!"builds:{nbuilt}", if phys then "phys-eq" else "phys-diff"] ++
       (if sawFailure then [s!"ops-after-failure:{if afterFailure == 0 then "0" else "+"}"] else ["no-failure"])
     let tags := if nbuilt == 0 then "trivial" :: tags else tags
+    -- C03 is `pass` only where it was decided: not for a schema with FixedSizeBinary(0) (judgement skipped), not for a
+    -- history without a build that returned arrays
+    if !(c03 == "fail" || c03Judged) then c03 := "na"
+    let tags := if c03 == "na" then (if fsb0 then "c03-na:fsb0" else "c03-na:no-build") :: tags else tags
     return { agree := agree, spec := [("C10", c10), ("C03", c03), ("C16", c16), ("C18", c18)], tags := tags, sig := sig, why := why }
 
 end Driver.Suites.Hist
